@@ -5,7 +5,7 @@ cd /verif
 tmp=$(mktemp)
 echo "{" > $tmp
 first=1
-for i in 01 02 03 04 05 06 07 08 09 10 11 12 13 14 15 16 17 18 19 20; do
+for i in ${ORDER:-01 02 03 04 05 06 07 08 09 10 11 12 13 14 15 16 17 18 19 20}; do
   s=$(date +%s.%N)
   out=$(./check C$i --tier $tier 2>&1); rc=$?
   e=$(date +%s.%N)
@@ -17,4 +17,4 @@ for i in 01 02 03 04 05 06 07 08 09 10 11 12 13 14 15 16 17 18 19 20; do
   echo "}" >> $tmp
 done
 echo "}" >> $tmp
-jq . $tmp > docs/timing_$tier.json && rm -f $tmp
+jq -S . $tmp > docs/timing_$tier.json && rm -f $tmp
